@@ -177,12 +177,12 @@ def check_windows(repo, rep):
     rep.floor(rid, 4)
 
 
-def check_windows_sessions(repo, rep):
+def check_windows_sessions(repo, rep, tier="quick"):
     from props import sessions as S
     rep.rule("C07-R2s", "both simulator functions interpreted whole on mini sessions (props/sessions.py): every completed window of the route "
                         "timeframe is generated exactly once per symbol, from exactly that symbol's 1m candles of the aligned window, before "
                         "the strategies of that step run; no window that does not complete inside the session is generated")
-    S.check_generation(repo, rep, "C07-R2s")
+    S.check_generation(repo, rep, "C07-R2s", cfgs=S.for_tier(tier))
 
 
 # ------------------------------------------------------------------ R2b partial candle count
@@ -510,7 +510,7 @@ def run(repo: Repo, rep, tier: str):
     rep.assume("sessions start and warm-up lengths are aligned to every route timeframe (stated in the property)")
     rep.guarded(check_formula, repo, rep)
     rep.guarded(check_windows, repo, rep)
-    rep.guarded(check_windows_sessions, repo, rep)
+    rep.guarded(check_windows_sessions, repo, rep, tier)
     rep.guarded(check_partial, repo, rep, tier)
     rep.guarded(check_tables, repo, rep)
     rep.guarded(check_forming, repo, rep)
